@@ -11,7 +11,7 @@ MANIFEST = dict(
          "sql_print_parse (emitter strengths vs SQLite's grammar: partial + counterexamples for comparison chains etc.), per-operator "
          "SQL meaning. Ties: every (parent, child, side) operator triple at depth 2, again under one more level, literal-folding cases and "
          "random trees of depth <= 6 are compiled by the real compiler for sqlite and generic: RQ tree vs the model's staticEval(expand(tree)), "
-         "SQL text vs the model's sqlPrint, and the value SQLite returns over {NULL,-7,-1,0,1,2,7}^3 vs the documented meaning evalDoc; "
+         "SQL text vs the model's sqlPrint, and the value SQLite returns over {NULL,-7,-1,0,1,2,7}^3 vs the documented meaning evalDoc; the same triples with a compound operand NAMED first (derive, then use: the back end inlines the definition) must give the text of the in-place form; "
          "the Lean SQLite semantics (sqlParse, evalS) is validated against the real SQLite on the same rows.",
     note="reals are exact rationals in the model; SQLite results are compared with tolerance where a non-dyadic rational or POW occurs, "
          "and rows whose truth value depends on an inexact intermediate are not judged. Text values (regex, concat) have no documented "
